@@ -24,6 +24,7 @@ EXPLANATION = (
     " Added after seed round 3: every return of Scrollable.render comes after _adjust_trim_top() (the position reported is 0 when the content fits); a constant top part is stored only under a test that the thumb leaves room; (8) FOCUS-FWD on the scrolling protocol (ListBox.get_scrollpos -> calculate_visible); (9) ScrollBar remembers for keypress()/mouse_event() exactly the size handed to the wrapped widget's render()."
     ' Round 4: (10) ListBox.get_first_visible_pos returns a count obtained by walking get_prev(), never a walker position, and positions are never tested for being integers; (11) Scrollable.render returns the untrimmed canvas only when it fits in both directions.'
     ' Round-4 triage: (3, extended) the relative-mode total is raised to position + visible amount before the maximum position is derived from it; (12) INV-RENDER - when rendering moves / clamps the position for the size at hand, the canvases cached for other sizes are dropped (shared with C06.9). Round 5: (13) the one-shot scroll request is reset on every path through _adjust_trim_top; (14) the wheel arithmetic of ScrollBar normalises a from-the-end position first.'
+    ' Round 6: (15) every normal return of Scrollable.render() has stored the flag keypress() routes by (_forward_keypress), also the early return for content that fits (fix 2cfcfcf).'
 )
 NOT_DECIDED = "0 <= position <= total - height after every history as a value statement, thumb monotonicity, rounding of the thumb, wheel handling, relative-scroll estimates."
 ASSUMPTIONS = []
@@ -504,6 +505,32 @@ def rule_one_shot_consumed(ctx: Ctx) -> RuleResult:
     return rr
 
 
+def rule_forward_flag(ctx: Ctx) -> RuleResult:
+    """'Keys the wrapped widget handles are not also used for scrolling': Scrollable.keypress() offers a key to the
+    wrapped widget only when `_forward_keypress` says so, and that flag is worked out by render() from what is in
+    view.  It describes the *last* rendering: every normal way out of render() stores it - also the early return for
+    content that fits (before fix 2cfcfcf the flag stayed None there: an Edit in a Scrollable whose content fits never
+    saw a key, and a stale False survived the view being enlarged)."""
+    p = ctx.p
+    rr = RuleResult("PASS", "C20.15", "every normal return of Scrollable.render() has stored _forward_keypress (the flag keypress() routes by describes the rendering just made)", floor=2)
+    fi = p.func("urwid.widget.scrollable.Scrollable.render")
+    kp = p.func("urwid.widget.scrollable.Scrollable.keypress")
+    flags = sorted({n.attr for t in kp.own_nodes() if isinstance(t, ast.If) for n in ast.walk(t.test) if isinstance(n, ast.Attribute) and isinstance(n.value, ast.Name) and n.value.id == kp.self_name and any(isinstance(c, ast.Call) and isinstance(c.func, ast.Attribute) and c.func.attr == "keypress" for b in t.body for c in ast.walk(b))})
+    # flags written by render (not constructor options)
+    flags = [f for f in flags if any(isinstance(n, ast.Attribute) and n.attr == f and isinstance(n.ctx, ast.Store) for n in fi.own_nodes())]
+    if not flags:
+        raise AnalysisError("Scrollable: the flag keypress() tests before forwarding (and render() writes) was not found")
+    cfg = cfg_of(fi)
+    for f in flags:
+        stores = [n for n in cfg.nodes if isinstance(n.ast, ast.Assign) and any(isinstance(t, ast.Attribute) and t.attr == f for t in n.ast.targets)]
+        for r in [n for n in cfg.nodes if n.kind == "return"]:
+            ok = not (r in cfg.reachable([cfg.entry], avoid=stores, labels=("n", "T", "F"), include_start=True))
+            rr.inst(f"{f}: return at L{r.lineno}", True, {"flag": f, "return": norm(r.ast, 40), "stored_on_every_path_to_it": ok})
+            if not ok:
+                rr.add(finding("PASS", fi, r.ast, f"render() can return here without having stored self.{f}: keypress() then routes by what an earlier rendering (or the constructor) left there - content that fits the view never gets its keys (None), or a False from a scrolled-out cursor survives the view being enlarged", construct=f"return without storing {f}"))
+    return rr
+
+
 def rule_raw_position_arithmetic(ctx: Ctx) -> RuleResult:
     """Scrollable.set_scrollpos() accepts positions counted from the end (negative numbers); they become row numbers
     only in the next rendering, and get_scrollpos() hands the raw value back until then.  Code that computes a new
@@ -547,6 +574,7 @@ def run(ctx: Ctx):
         rule_fit_test(ctx),
         rule_one_shot_consumed(ctx),
         rule_raw_position_arithmetic(ctx),
+        rule_forward_flag(ctx),
         fresh.run_fresh(p, "C20.7", ["urwid.canvas"], floor=30),
         inv.run_inv(p, "C20.6", floor_classes=2, floor_nontrivial=1, exceptions=INV_EXCEPTIONS, only_classes={"Scrollable", "ScrollBar"}),
         fwd.run_fwd(p, "C20.8", ("urwid.widget.scrollable", "urwid.widget.listbox"), floor=20, description="the scrolling protocol (get_scrollpos, rows_max, get_first_visible_pos, ...) and the renderers pass the focus flag on: the position is computed for the rendering that is shown"),
@@ -555,6 +583,7 @@ def run(ctx: Ctx):
 
 _F = "urwid/widget/scrollable.py"
 MUTANTS = [
+    Mut("scrollable-fit-return-without-forward-flag", "urwid/widget/scrollable.py", "Scrollable.render", "            self._forward_keypress = canv.cursor is not None or ow.selectable()\n", "", "PASS|widget.scrollable.Scrollable.render|return without storing _forward_keypress"),
     Mut("wheel-arithmetic-on-raw-position", _F, "ScrollBar.mouse_event", "            if pos < 0:\n                # a position counted from the end that has not been rendered (normalised) yet\n                pos = max(0, ow.rows_max(ow_size, focus) - ow_size[1] + pos + 1)\n", "", "GUARD|widget.scrollable.ScrollBar.mouse_event"),
     Mut("scroll-request-survives-fitting-render", _F, "Scrollable._adjust_trim_top", "        action = self._scroll_action\n        self._scroll_action = None\n\n        _maxcol, maxrow = size", "        _maxcol, maxrow = size", "PASS|widget.scrollable.Scrollable._adjust_trim_top", also=[("        def ensure_bounds(new_trim_top: int) -> int:", "        action = self._scroll_action\n        self._scroll_action = None\n\n        def ensure_bounds(new_trim_top: int) -> int:")]),
     Mut("scrollable-position-moved-without-invalidate", "urwid/widget/scrollable.py", "Scrollable._adjust_trim_top", "        if self._trim_top != old_trim_top:\n            # canvases cached for other sizes show the old position\n            self._invalidate()\n", "", "INV-RENDER|widget.scrollable.Scrollable._adjust_trim_top"),
@@ -572,7 +601,7 @@ MUTANTS = [
     Mut("thumb-from-full-width", _F, "ScrollBar.render", "ow_rows_max = ow_base.rows_max(ow_size, focus)", "ow_rows_max = ow_base.rows_max(size, focus)", "GEOM|widget.scrollable.ScrollBar.render"),
     Mut("set-scrollpos-no-invalidate", _F, "Scrollable.set_scrollpos", "        self._trim_top = int(position)\n        self._invalidate()", "        self._trim_top = int(position)", "INV|widget.scrollable.Scrollable.set_scrollpos"),
     Mut("cursor-bound-closed", _F, "Scrollable.render", "if cursrow >= maxrow or cursrow < 0:", "if cursrow > maxrow or cursrow < 0:", "POSBOUND|"),
-    Mut("fits-return-without-reset", _F, "Scrollable.render", "            self._adjust_trim_top(canv, size)\n            return canv", "            return canv", "PAIR|widget.scrollable.Scrollable.render|return without position reset"),
+    Mut("fits-return-without-reset", _F, "Scrollable.render", "            self._adjust_trim_top(canv, size)\n            # everything is in view", "            # everything is in view", "PAIR|widget.scrollable.Scrollable.render|return without position reset"),
     Mut("top-nudge-without-room", _F, "ScrollBar.render", "if top_height == 0 and top_weight > 0 and maxrow > thumb_height:", "if top_height == 0 and top_weight > 0:", "PAIR|widget.scrollable.ScrollBar.render|top part constant"),
     Mut("twin-top-nudge-room-reordered", _F, "ScrollBar.render", "if top_height == 0 and top_weight > 0 and maxrow > thumb_height:", "if thumb_height < maxrow and top_height == 0 and top_weight > 0:", twin=True),
     Mut("listbox-scrollpos-ignores-focus", "urwid/widget/listbox.py", "ListBox.get_scrollpos", "self.calculate_visible(self._rendered_size, focus)", "self.calculate_visible(self._rendered_size)", "FOCUS-FWD|widget.listbox.ListBox.get_scrollpos"),
